@@ -90,6 +90,7 @@ def gen(ctx, deep):
         # reloading the MODEL must leave the auto-save flag alone
         for a in ops[:12]:
             jobs.append((ec.Config(shape, adapter=True, watcher=None, initial=inits[1]), [("autosave", False), ("loadmodel",), ("load", None), a]))
+            jobs.append((ec.Config(shape, adapter=True, watcher=None, initial=inits[1]), [("autosave", False), ("setmodel",), ("load", None), a]))
         # the async enforcer has its own copies of the internal paths
         acfg = ec.Config(shape, adapter=True, watcher=None, initial=inits[1], is_async=True)
         for a in ops:
@@ -115,39 +116,42 @@ def _p2_case(args):
     """a model with a SECOND policy definition (p2 = sub, act): management calls on p2 through the recording faithful
     adapter; after every call the adapter's p2 rows must be memory's p2 rules, and a call that returns False must not
     have talked to the adapter (implementation side: the Lean enforcer model has the sections p, g, g2)"""
-    is_async, init_p, init_p2, script = args
+    is_async, init_p, init_p2, script = args[:4]
+    variant = args[4] if len(args) > 4 else None  # "prio": the same calls on p of an explicit-priority model
     casbin = common.use_repo()
     import policy_corr as pc
+
+    TEXT, PT = (pc.PRIO, "p") if variant == "prio" else (pc.ACL, "p2")
 
     ad = ec.make_adapter(casbin, {"p": init_p, "g": [], "g2": []}, is_async=is_async)
     run = ec.run_async if is_async else (lambda x: x)
     if is_async:
-        e = casbin.AsyncEnforcer(casbin.AsyncEnforcer.new_model(text=pc.ACL), ad)
+        e = casbin.AsyncEnforcer(casbin.AsyncEnforcer.new_model(text=TEXT), ad)
         run(e.load_policy())
     else:
-        e = casbin.Enforcer(casbin.Enforcer.new_model(text=pc.ACL), ad)
+        e = casbin.Enforcer(casbin.Enforcer.new_model(text=TEXT), ad)
     if init_p2:
-        run(e.add_named_policies("p2", [list(r) for r in init_p2]))
+        run(e.add_named_policies(PT, [list(r) for r in init_p2]))
     out = []
     for op in script:
         n0 = len(ad.log)
         try:
             if op[0] == "add":
-                ret = run(e.add_named_policy("p2", *op[1]))
+                ret = run(e.add_named_policy(PT, *op[1]))
             elif op[0] == "remove":
-                ret = run(e.remove_named_policy("p2", *op[1]))
+                ret = run(e.remove_named_policy(PT, *op[1]))
             elif op[0] == "addmany":
-                ret = run(e.add_named_policies("p2", [list(r) for r in op[1]]))
+                ret = run(e.add_named_policies(PT, [list(r) for r in op[1]]))
             elif op[0] == "removemany":
-                ret = run(e.remove_named_policies("p2", [list(r) for r in op[1]]))
+                ret = run(e.remove_named_policies(PT, [list(r) for r in op[1]]))
             elif op[0] == "removefiltered":
-                ret = run(e.remove_filtered_named_policy("p2", op[1], *op[2]))
+                ret = run(e.remove_filtered_named_policy(PT, op[1], *op[2]))
             elif op[0] == "update":
-                ret = run(e.update_named_policy("p2", list(op[1]), list(op[2])))
+                ret = run(e.update_named_policy(PT, list(op[1]), list(op[2])))
             elif op[0] == "updatemany":
-                ret = run(e.update_named_policies("p2", [list(r) for r in op[1]], [list(r) for r in op[2]]))
+                ret = run(e.update_named_policies(PT, [list(r) for r in op[1]], [list(r) for r in op[2]]))
             elif op[0] == "updatefiltered":
-                ret = run(e.update_filtered_named_policies("p2", [list(r) for r in op[1]], op[2], *op[3]))
+                ret = run(e.update_filtered_named_policies(PT, [list(r) for r in op[1]], op[2], *op[3]))
             else:
                 raise common.Infra("unknown op " + repr(op))
             ret = bool(ret) if not isinstance(ret, list) else (True if ret else False)
@@ -155,7 +159,7 @@ def _p2_case(args):
             raise
         except Exception as ex:  # noqa
             ret = "!" + type(ex).__name__
-        out.append({"ret": ret, "mem": [list(r) for r in e.get_named_policy("p2")], "store": [list(r) for r in ad.store.get("p2", [])], "mem_p": [list(r) for r in e.get_policy()], "store_p": [list(r) for r in ad.store.get("p", [])],
+        out.append({"ret": ret, "mem": [list(r) for r in e.get_named_policy(PT)], "store": [list(r) for r in ad.store.get(PT, [])], "mem_p": [list(r) for r in e.get_policy()], "store_p": [list(r) for r in ad.store.get("p", [])],
                     "talked": [str(x) for x in ad.log[n0:]]})
     return out
 
@@ -178,8 +182,22 @@ def second_definition_stream(ctx, res, deep):
                 jobs.append((is_async, P3, init_p2, [a]))
         for _ in range(60 if not deep else 600):
             jobs.append((is_async, P3, rng.sample(U2, rng.randint(0, 4)), [rng.choice(ops) for _ in range(rng.randint(2, 5))]))
+    # the same on the permission rules of an explicit-priority model (a priority-changing update RAISES: nothing may have
+    # been told to the adapter before that)
+    UP = [["1", "alice", "d", "read", "allow"], ["2", "bob", "d", "read", "deny"], ["1", "carol", "d", "read", "allow"], ["3", "alice", "d", "write", "deny"]]
+    pops = []
+    for r in UP:
+        pops += [("add", r), ("remove", r), ("update", r, r[:4] + ["deny" if r[4] == "allow" else "allow"]), ("update", r, ["7"] + r[1:])]
+    pops += [("addmany", [UP[0], UP[1]]), ("removemany", [UP[0], UP[1]]), ("removefiltered", 1, ["alice"]), ("updatemany", [UP[0], UP[1]], [UP[0][:4] + ["deny"], ["9"] + UP[1][1:]]),
+             ("updatemany", [UP[0], UP[1]], [UP[0][:4] + ["deny"], UP[1][:4] + ["allow"]])]
+    for is_async in (False, True):
+        for init in ([], UP[:2], UP):
+            for a in pops:
+                jobs.append((is_async, [], init, [a], "prio"))
+        for _ in range(30 if not deep else 300):
+            jobs.append((is_async, [], rng.sample(UP, rng.randint(0, 4)), [rng.choice(pops) for _ in range(rng.randint(2, 4))], "prio"))
     for job in jobs:
-        is_async, init_p, init_p2, script = job
+        is_async, init_p, init_p2, script = job[:4]
         out = _p2_case(job)
         res.nontrivial.add(hash(("p2", repr(job))))
         for i, rec in enumerate(out):
@@ -193,8 +211,9 @@ def second_definition_stream(ctx, res, deep):
                 what = f"memory holds the p rules {rec['mem_p']}, the adapter's store {rec['store_p']}"
             elif rec["ret"] is False and rec["talked"]:
                 what = f"the call returned False and yet told the adapter {rec['talked']}"
+            tag = "prio" if len(job) > 4 else "p2"
             if what:
-                res.violation({"signature": f"C09:p2:{script[i][0]}{':async' if is_async else ''}", "stream": "p2", "job": [is_async, init_p, init_p2, [list(o) for o in script[: i + 1]]],
+                res.violation({"signature": f"C09:{tag}:{script[i][0]}{':async' if is_async else ''}", "stream": "p2", "job": [is_async, init_p, init_p2, [list(o) for o in script[: i + 1]]] + list(job[4:]),
                                "what": f"model with p and p2, {'AsyncEnforcer' if is_async else 'Enforcer'}, p2 = {init_p2}: after {[list(o) for o in script[: i + 1]]} (result {rec['ret']}) {what}",
                                "expected": "store = memory", "observed": what})
                 break
@@ -221,7 +240,7 @@ def run(ctx):
 def replay(obj):
     if obj.get("stream") == "p2":
         j = obj["job"]
-        rec = _p2_case((j[0], j[1], j[2], [tuple(o) for o in j[3]]))[-1]
+        rec = _p2_case((j[0], j[1], j[2], [tuple(o) for o in j[3]]) + tuple(j[4:]))[-1]
         key = lambda l: sorted(map(tuple, l))  # noqa
         return key(rec["mem"]) != key(rec["store"]) or key(rec["mem_p"]) != key(rec["store_p"]) or (rec["ret"] is False and bool(rec["talked"]))
     case = obj["case"]
